@@ -725,7 +725,14 @@ impl Stringify for Value {
                 ) -> FmtResult {
                     match expr {
                         Expression::LitStr { value, location } => {
-                            stringifier.write_token(&escape_html_body(value), None, location)?;
+                            let quoted = escape_html_body(value);
+                            if let Some(head) = quoted.strip_suffix('{') {
+                                // the next part would complete a `{{`
+                                let quoted = format!("{}&#123;", head);
+                                stringifier.write_token(&quoted, None, location)?;
+                            } else {
+                                stringifier.write_token(&quoted, None, location)?;
+                            }
                             return Ok(());
                         }
                         Expression::ToStringWithoutUndefined { value, location } => {
@@ -739,17 +746,19 @@ impl Stringify for Value {
                             right,
                             location,
                         } => {
-                            let split = if let Expression::ToStringWithoutUndefined { .. }
-                            | Expression::LitStr { .. } = &**left
-                            {
-                                true
-                            } else if let Expression::ToStringWithoutUndefined { .. }
-                            | Expression::LitStr { .. } = &**right
-                            {
-                                true
-                            } else {
-                                false
-                            };
+                            // only the chains built from mixed text (`a{{ b }}c`) can be printed as text again:
+                            // in a written `'a' + b` the operand `b` is not converted with the "undefined as empty" rule
+                            fn is_text_part(expr: &Expression) -> bool {
+                                match expr {
+                                    Expression::ToStringWithoutUndefined { .. }
+                                    | Expression::LitStr { .. } => true,
+                                    Expression::Plus { left, right, .. } => {
+                                        is_text_part(left) && is_text_part(right)
+                                    }
+                                    _ => false,
+                                }
+                            }
+                            let split = is_text_part(left) && is_text_part(right);
                             if split {
                                 split_expression(&left, stringifier, start_location, location)?;
                                 split_expression(&right, stringifier, location, end_location)?;
